@@ -178,6 +178,7 @@ def main(argv=None):
         return do_replay(prop_id, a.replay)
 
     t0 = time.time()
+    os.environ["TV_TIER"] = a.tier      # generators deepen their bounds in the thorough tier (tv/lru.py)
     from . import env  # noqa: F401
     from .core import Ctx
     prop = load_prop(prop_id)
